@@ -110,7 +110,9 @@ PROPS["C18"] = {
               {"module": "MC_C03", "cfg": "MC_C03_quick.cfg", "nprimes": 6, "n_jit": 10, "n_prog": 3},
               {"module": "MC_PDF", "cfg": "MC_C06_quick.cfg", "nprimes": 6, "n_jit": 8, "n_prog": 3},
               {"module": "MC_PDF", "cfg": "MC_C05_quick.cfg", "nprimes": 6, "n_jit": 8, "n_prog": 3},
-              {"module": "MC_C16", "cfg": "MC_C16_quick.cfg", "nprimes": 6, "n_jit": 0, "n_prog": 5}],
+              {"module": "MC_C16", "cfg": "MC_C16_quick.cfg", "nprimes": 6, "n_jit": 0, "n_prog": 5},
+              # every factor / measure / density kind, fresh and cache-warmed: all behaviours (dict + pytree round trips)
+              {"module": "MC_PROD", "cfg": "MC_PROD_c18.cfg", "nprimes": 6, "n_jit": 100, "n_prog": 0}],
     "quick_n_jit": 10, "quick_n_prog": 3,
     "thorough_n_jit": 250, "thorough_n_prog": 40,
     "level_text": "(i) The pytree / to_dict protocol is a TLA+ state machine (spec/Pytree.tla) over a class table extracted from the current code (fields, init flags, __dict__ keys of fresh and cache-warmed instances, flatten output, to_dict keys); TLC checks that no class in any cache state can reach a rejected protocol state (flatten, unflatten, traced argument, to_dict, from_dict, iterated). (ii) Behaviours of the specification are replayed with EVERY step executed as jax.jit(step)(operand objects), so operands, results and mutated objects cross the boundary as pytrees, and all observables are compared with the exact expected values (hence with the eager run). (iii) Whole behaviours as one jitted program, reverse-mode gradient along a fixed input direction vs central differences, the Kalman filter as lax.scan with the density as carry, evaluation / set_y / condition_on_x under vmap over the data axis.",
